@@ -319,3 +319,92 @@ Example perform_hyp_sat :
   let o p := {| o_experiment := []; o_filter := None; o_perform := p |} in
   o_perform (o false) = false /\ clean ws_ex (o false) = [] /\ clean ws_ex (o true) <> [].
 Proof. vm_compute. repeat split; discriminate. Qed.
+
+(* ---- orphans on workspaces with link entries ------------------------------ *)
+Lemma all_index_keys_spec : forall w io k,
+  In k (all_index_keys w io) <->
+  exists x, In x (w_xps w) /\ (In k (x_jobs x) \/ (io = false /\ In k (bak_keys x))).
+Proof.
+  intros w io k. unfold all_index_keys. rewrite in_app_iff, in_flat_map. split.
+  - intros [(x & Hx & Hk) | H]; [exists x; tauto|].
+    destruct io; [contradiction|]. apply in_flat_map in H. destruct H as (x & Hx & Hk). exists x. tauto.
+  - intros (x & Hx & [Hk | [Eio Hk]]); [left; eauto|].
+    right. subst io. apply in_flat_map. eauto.
+Qed.
+
+Lemma index_dirs_spec : forall w links io k,
+  In k (index_dirs w links io) <-> referenced_l w links io k.
+Proof.
+  intros w links io k. unfold index_dirs, referenced_l. rewrite in_map_iff. split.
+  - intros (k' & E & Hk'). apply all_index_keys_spec in Hk'. destruct Hk' as (x & Hx & H). exists x, k'. tauto.
+  - intros (x & k' & Hx & H & E). exists k'. split; [assumption|]. apply all_index_keys_spec. eauto.
+Qed.
+
+(* removed <-> --clean, a real job directory, that no index entry (index or backup index) leads to *)
+Theorem orphans_l_exact : forall w links c io k,
+  In k (orphans_clean_l w links c io) <->
+  c = true /\ (exists j, In j (w_jobs w) /\ job_key j = k) /\ ~ referenced_l w links io k.
+Proof.
+  intros w links c io k. unfold orphans_clean_l. destruct c.
+  - rewrite filter_In, in_map_iff, negb_true_iff. split.
+    + intros [(j & E & Hj) Hm]. split; [reflexivity|]. split; [eauto|].
+      intro Hr. apply index_dirs_spec in Hr. apply mem_key_In in Hr. rewrite Hr in Hm. discriminate.
+    + intros (_ & (j & Hj & E) & Hr). split; [eauto|].
+      destruct (mem_key k (index_dirs w links io)) eqn:Em; [|reflexivity].
+      exfalso. apply Hr. apply index_dirs_spec. apply mem_key_In. exact Em.
+  - simpl. split; [tauto | intros [H _]; discriminate].
+Qed.
+
+(* a job directory that an index entry leads to -- by its own name or through a link -- is kept *)
+Corollary orphans_l_keeps_referenced : forall w links c io x k',
+  In x (w_xps w) -> In k' (x_jobs x) -> ~ In (resolve links k') (orphans_clean_l w links c io).
+Proof.
+  intros w links c io x k' Hx Hk H. apply orphans_l_exact in H. destruct H as (_ & _ & Hr).
+  apply Hr. exists x, k'. auto.
+Qed.
+
+Lemma resolve_nil : forall k, resolve [] k = k.
+Proof. reflexivity. Qed.
+
+(* without link entries this is the orphans_clean of the ordinary workspaces *)
+Lemma orphans_l_nolinks : forall w c io, orphans_clean_l w [] c io = orphans_clean w c io.
+Proof.
+  intros w c io. unfold orphans_clean_l, orphans_clean. destruct c; [|reflexivity].
+  apply filter_ext_in. intros k Hk. f_equal.
+  apply in_map_iff in Hk. destruct Hk as (j & E & Hj).
+  assert (Hs : stored w k = true) by (apply stored_spec; eauto).
+  destruct (mem_key k (index_keys w io)) eqn:E1; destruct (mem_key k (index_dirs w [] io)) eqn:E2; try reflexivity.
+  - apply mem_key_In in E1. apply index_keys_spec in E1; [|assumption]. destruct E1 as (x & Hx & H).
+    assert (H0 : In k (index_dirs w [] io)) by (apply index_dirs_spec; exists x, k; auto).
+    apply mem_key_In in H0. congruence.
+  - apply mem_key_In in E2. apply index_dirs_spec in E2. destruct E2 as (x & k' & Hx & H & Er).
+    rewrite resolve_nil in Er. subst k'.
+    assert (H0 : In k (index_keys w io)) by (apply index_keys_spec; [assumption|exists x; auto]).
+    apply mem_key_In in H0. congruence.
+Qed.
+
+(* the code before the repair: the directory behind a link is removed although the index of an
+   experiment leads to it (state after `deprecated list --fix` and a new run of the experiment) *)
+Definition k_old : key := ([111; 108; 100], [48; 49]).     (* old/01 *)
+Definition k_new : key := ([110; 101; 119], [48; 50]).     (* new/02 *)
+Definition ws_link : ws :=
+  {| w_jobs := [ {| j_task := fst k_old; j_hash := snd k_old; j_done := true; j_failed := false;
+                    j_pid := false; j_alive := false; j_tags := [] |} ];
+     w_xps := [ {| x_name := [88]; x_jobs := [k_new]; x_bak := None |} ] |}.
+Lemma orphans_through_link_refuted : exists w links k l,
+  orphans_clean_l_prefix w links true false = Some l /\ In k l /\ referenced_l w links false k.
+Proof.
+  exists ws_link, [(k_new, k_old)], k_old, [k_old]. split; [vm_compute; reflexivity|]. split; [left; reflexivity|].
+  exists {| x_name := [88]; x_jobs := [k_new]; x_bak := None |}, k_new.
+  split; [left; reflexivity|]. split; [left; left; reflexivity|]. vm_compute. reflexivity.
+Qed.
+(* ... and an entry that is a link and is in no index makes the command fail *)
+Lemma orphans_link_raises_prefix : exists w links, orphans_clean_l_prefix w links true false = None.
+Proof.
+  exists {| w_jobs := w_jobs ws_link; w_xps := [ {| x_name := [88]; x_jobs := [k_old]; x_bak := None |} ] |},
+         [(k_new, k_old)]. vm_compute. reflexivity.
+Qed.
+Example orphans_l_ex :
+  orphans_clean_l ws_link [(k_new, k_old)] true false = []
+  /\ orphans_clean_l ws_link [] true false = [k_old].
+Proof. split; vm_compute; reflexivity. Qed.
